@@ -46,9 +46,10 @@ def _compositions(n, max_parts):
 
 
 @contract('C11', 'pca_increment_native', level='bounded', native_samples=2, tol=1e-6,
-          configs=[dict(n=n, d=d, centre=c, backed=b) for (n, d) in ((6, 3), (7, 10), (9, 4)) for c in (True, False) for b in ('vector', 'pointcloud')],
+          configs=[dict(n=n, d=d, centre=c, backed=b, precentred=pc) for (n, d) in ((6, 3), (7, 10), (9, 4)) for c in (True, False)
+                   for b in ('vector', 'pointcloud') for pc in (False, True) if not (pc and not c)],
           functions=['menpo.math.decomposition:ipca', 'menpo.model.pca:PCAVectorModel.increment'])
-def pca_increment_native(ctx, n, d, centre, backed):
+def pca_increment_native(ctx, n, d, centre, backed, precentred):
     """bounded stand-in: every composition of n samples into an initial batch
     (>= 2 samples) plus increments gives the batch model: sample count, mean,
     eigenvalues, principal subspace."""
@@ -69,6 +70,11 @@ def pca_increment_native(ctx, n, d, centre, backed):
         count += 1
         if count > 12:
             break
+        if precentred:
+            # the caller mean-normalised the first batch: its mean is rounding noise, not exactly zero
+            X = X.copy()
+            X[:parts[0]] -= X[:parts[0]].mean(0)
+            batch = cls(wrap(X), centre=centre)
         m = cls(wrap(X[:parts[0]]), centre=centre)
         pos = parts[0]
         for p in parts[1:]:
